@@ -136,6 +136,10 @@ impl Manifest {
 
         // TODO: don't read all to memory
         reader.read_to_end(&mut data).await?;
+        // After a crash the un-synced end of the file can be zero-filled (its size reached the
+        // disk, its bytes did not): nothing was ever acknowledged from there.
+        let written = data.iter().rposition(|b| *b != 0).map_or(0, |p| p + 1);
+        data.truncate(written);
 
         let stream = Deserializer::from_slice(&data).into_iter::<ManifestOperation>();
 
